@@ -127,8 +127,8 @@ theorem unvisited_le (m : LinMod) (c : List (List Nat)) : unvisited m c ≤ m.le
   have := List.length_filter_le (fun o => decide (cntAt c o 0 = 0)) (List.range m.len)
   simpa using this
 
-theorem restartOrd_lt (m : LinMod) (ep chain : Nat) (ctl : List Nat) (hrst : m.rst < m.len) (hep : ep < m.len) :
-    restartOrd m ep chain ctl < m.len := by
+theorem restartOrd_lt (m : LinMod) (ep chain : Nat) (ctl : List Nat) (em : Option Nat) (hrst : m.rst < m.len)
+    (hep : ep < m.len) : restartOrd m ep chain ctl em < m.len := by
   unfold restartOrd
   split
   · exact hep
@@ -160,7 +160,7 @@ theorem scanOrders_fuel (m : LinMod) (ep chain : Nat) (hrst : m.rst < m.len) (he
       have hord : ord < m.len := by
         simp only [ord, wrapped]
         by_cases hw : nord ≥ m.len
-        · simp only [hw, decide_true, if_true]; exact restartOrd_lt m ep chain _ hrst hep
+        · simp only [hw, decide_true, if_true]; exact restartOrd_lt m ep chain _ _ hrst hep
         · simp [hw]; omega
       have h1cnt : st1.cnt = st.cnt := rfl
       have h1osv : st1.osv = st.osv + 1 := rfl
